@@ -8,6 +8,7 @@
   outstanding, reported rate 1) violates the premise and is the known finding D6.
 -/
 import Krp.Lemmas.HubSpec
+import Krp.Lemmas.Still
 namespace Krp
 open HubSt
 
@@ -217,5 +218,103 @@ theorem C04_zero_backed_counterexample :
 
 /-! Non-vacuity of the premises: backed pool at rate 0.9. -/
 example : rateOf 900 1000 0 * (1000 + 0) ≤ 900 * D ∧ 0 < rateOf 900 1000 0 := by decide
+
+
+/-! ### whole transactions that cannot move a rate
+
+  `Still m` (Lemmas/Still.lean): `m` is a WithdrawUnbonded, an owner parameter / ownership message,
+  a wait-list migration, an airdrop hook, a token Transfer / TransferFrom / allowance change / Send
+  to another contract than the hub, any reward-contract message (claims included), a dispatcher
+  message other than DispatchRewards, a registry AddValidator / UpdateConfig / ownership message, a
+  bank or distribution message. Handling it — and everything it triggers — leaves both pools, the
+  pending requests, both token supplies and the delegations untouched, so the reported rates are
+  exactly what they were. -/
+
+/-- the exchange rates the State query reports (bSei, stSei), or the query's failure -/
+def reportedRates (s : Sys) : Res (Nat × Nat) :=
+  match s.hub.actualState s.hubEnv with
+  | .ok st => .ok (st.bRate, st.sRate)
+  | .error e => .error e
+
+theorem reportedRates_of_samePools (s s' : Sys) (p : SamePools s s') : reportedRates s' = reportedRates s := by
+  have hd : s'.hubEnv.delegations = s.hubEnv.delegations := by
+    show s'.delegationsOf hubA = s.delegationsOf hubA
+    unfold Sys.delegationsOf; rw [p.deleg, p.delegSet]
+  have hbs : s'.hub.bSupplyQ s'.hubEnv = s.hub.bSupplyQ s.hubEnv := by
+    unfold HubSt.bSupplyQ; rw [p.btok]
+    cases s.hub.bsei with
+    | none => rfl
+    | some a => show s'.supplyOf a = s.supplyOf a; unfold Sys.supplyOf; rw [p.bSupply, p.sSupply]
+  have hss : s'.hub.sSupplyQ s'.hubEnv = s.hub.sSupplyQ s.hubEnv := by
+    unfold HubSt.sSupplyQ; rw [p.stok]
+    cases s.hub.stsei with
+    | none => rfl
+    | some a => show s'.supplyOf a = s.supplyOf a; unfold Sys.supplyOf; rw [p.bSupply, p.sSupply]
+  unfold reportedRates HubSt.actualState
+  rw [hd, p.bBond, p.sBond]
+  by_cases h1 : s.hubEnv.delegations = []
+  · simp only [h1, if_true, p.bRate, p.sRate]
+  · simp only [h1, if_false]
+    by_cases h2 : s.hub.bBond + s.hub.sBond = 0
+    · simp only [h2, if_true, p.bRate, p.sRate]
+    · simp only [h2, if_false, bind, Except.bind, pure, Except.pure, throw, throwThe, MonadExceptOf.throw, hbs, hss,
+        p.reqB, p.reqS]
+      cases s.hub.bSupplyQ s.hubEnv with
+      | error e => rfl
+      | ok bs =>
+        cases s.hub.sSupplyQ s.hubEnv with
+        | error e => rfl
+        | ok ss =>
+          simp only []
+          by_cases h3 : s.hub.bBond + s.hub.sBond > (s.hubEnv.delegations.map (·.2)).sum
+          · simp only [h3, if_true]
+            by_cases h4 : (s.hubEnv.delegations.map (·.2)).sum <
+                mulDec (s.hubEnv.delegations.map (·.2)).sum (fromRatio s.hub.bBond (s.hub.bBond + s.hub.sBond))
+            · simp only [h4, if_true]
+            · simp only [h4, if_false]
+          · simp only [h3, if_false]
+
+/-- **No still transaction moves a rate.** Whatever still message starts the transaction, whoever
+    sends it, whatever it triggers and whether or not it succeeds: the State query reports the same
+    two exchange rates afterwards. -/
+theorem C04_still_tx_keeps_rates (s : Sys) (m : Msg) (hm : Still m = true) :
+    reportedRates (s.exec m).1 = reportedRates s :=
+  reportedRates_of_samePools s _ (exec_still s m hm)
+
+/-- …over any history of still transactions and environment events other than slashing -/
+theorem C04_still_history_keeps_rates (s : Sys) (l : List Step)
+    (hst : ∀ m, Step.tx m ∈ l → Still m = true)
+    (hns : ∀ v n d, Step.env (.slash v n d) ∉ l) (hnl : ∀ u b a, Step.env (.seedLegacy u b a) ∉ l) :
+    reportedRates (s.steps l) = reportedRates s := by
+  induction l generalizing s with
+  | nil => rfl
+  | cons st rest ih =>
+    show reportedRates ((s.step st).steps rest) = _
+    rw [ih (s.step st) (fun m hm => hst m (List.mem_cons_of_mem _ hm))
+      (fun v n d hm => hns v n d (List.mem_cons_of_mem _ hm)) (fun u b a hm => hnl u b a (List.mem_cons_of_mem _ hm))]
+    cases st with
+    | tx m => exact C04_still_tx_keeps_rates s m (hst m (List.mem_cons_self ..))
+    | env e =>
+      apply reportedRates_of_samePools
+      have hne : ∀ u b a, e ≠ .seedLegacy u b a := by
+        intro u b a he; subst he; exact hnl u b a (List.mem_cons_self ..)
+      have sc := env_same s e hne
+      have hdl : (s.env e).chain.deleg = s.chain.deleg ∧ (s.env e).chain.delegSet = s.chain.delegSet := by
+        cases e with
+        | slash v n d => exact absurd (List.mem_cons_self ..) (hns v n d)
+        | slashUnbonding v n d => simp only [Sys.env]; split <;> exact ⟨rfl, rfl⟩
+        | seedLegacy u b a => exact absurd rfl (hne u b a)
+        | _ => exact ⟨rfl, rfl⟩
+      show SamePools s (s.env e)
+      exact ⟨by rw [sc.hub], by rw [sc.hub], by rw [sc.hub], by rw [sc.hub], by rw [sc.hub], by rw [sc.hub],
+        by rw [sc.hub], by rw [sc.hub], by rw [sc.bsei], by rw [sc.stsei], hdl.1, hdl.2⟩
+
+/-- the operations the property names that are still: withdraw, transfer, reward claim -/
+example (u v : Addr) (a : Nat) :
+    Still (.wasm u hubA (.hub .withdrawUnbonded) []) = true ∧
+    Still (.wasm u bseiA (.tok (.transfer v a)) []) = true ∧
+    Still (.wasm u stseiA (.tok (.transferFrom v u a)) []) = true ∧
+    Still (.wasm u rewardA (.reward (.claim none)) []) = true ∧
+    Still (.wasm u regA (.reg (.add v)) []) = true := ⟨rfl, rfl, rfl, rfl, rfl⟩
 
 end Krp
